@@ -85,6 +85,7 @@ ExplainPath(e) ==
                           want(m.name = "DeregistrationRequestUEOriginatingDeregistration" /\ m.mand[2] = a.suci, "5GS mobile identity is not the given SUCI")
                           \cup want(m.name # "DeregistrationRequestUEOriginatingDeregistration" \/ m.mand[1][1] \div 16 = a.ngksi, "ngKSI is not the given one")
                           \cup want(m.name # "DeregistrationRequestUEOriginatingDeregistration" \/ m.mand[1][1] % 4 = a.accessType, "access type is not the given one")
+                          \cup want(m.name # "DeregistrationRequestUEOriginatingDeregistration" \/ (m.mand[1][1] \div 8) % 2 = a.switchOff, "switch-off bit is not the given one")
                    [] OTHER -> {"unknown constructor"} IN
         IF cs = {} THEN Ok ELSE No("C09: " \o e.fn \o ": " \o (CHOOSE x \in cs : TRUE))
 Explain(e) == CASE e.ev = "Path" -> ExplainPath(e) [] OTHER -> No("no action of the specification matches this event")
